@@ -179,6 +179,7 @@ static std::vector<Violation> case_c06(const Plan& p, CaseCtx& cx)
     if (o.rec.oob_read) vs.push_back(make_violation("C06", "oob_read", "dereference outside [0,len): " + std::to_string(o.rec.oob_read) + "x; " + brief, p));
     if (o.rec.oob_iter) vs.push_back(make_violation("C06", "oob_iter", "iterator moved outside [0,len]: " + std::to_string(o.rec.oob_iter) + "x; " + brief, p));
     if (o.rec.oob_view) vs.push_back(make_violation("C06", "oob_view", "get_view outside the buffer; " + brief, p));
+    if (o.rec.use_dead) vs.push_back(make_violation("C06", "dead_object_read", "an object was read after the end of its lifetime (" + std::to_string(o.rec.use_dead) + "x): undefined behaviour; " + brief, p));
     if (o.rec.bounds_bad) vs.push_back(make_violation("C06", "stack_bounds", "a fixed-capacity stack was overrun or underrun (cvector invariant); " + brief, p));
     if (o.out.exc == 2 || o.rec.budget_hit) vs.push_back(make_violation("C06", "no_termination", "step/read budget exhausted; " + brief, p));
     else if (o.model && o.op.api != API_MATCH && o.op.api != API_MATCHER_DEBUG)
